@@ -388,6 +388,9 @@ func (s *SpokFile) findClosestMatch(task string) string {
 // If a spokfile is found, it's absolute path will be returned
 // typical usage will make start = $CWD and stop = $HOME.
 func Find(logger logger.Logger, start, stop string) (string, error) {
+	// Directories are compared by path, so both have to be in their shortest form first:
+	// "/home/me/", "/home//me" and "/home/me/src/.." all mean "/home/me"
+	start, stop = filepath.Clean(start), filepath.Clean(stop)
 	for {
 		logger.Debug("Looking in %s for spokfile", start)
 		entries, err := os.ReadDir(start)
